@@ -288,7 +288,103 @@ def s_pair(draw):
     return case
 
 
+def check_in_simulation(case) -> Result:
+    """recorded force / stresses at every instant recomputed from the torques recorded at that instant"""
+    import numpy as np
+    from vp import sim as S
+    from vp import invariants as I
+    from vp import simprops as SP
+    res = Result()
+    r = SP.simulate_checked(case, res, ID)
+    if r is None:
+        return res
+    b, traces, err = r
+    if not traces:
+        return res
+    tr = traces[-1]
+    mdl = b.model
+    if not I.complete(tr) or not I.finite_trace(tr):
+        res.classes += ('incomplete-or-nonfinite-trace',)
+        return res
+    specs = mdl.elements
+    n_checked = 0
+    for i in range(1, mdl.n):
+        sp = specs[i]
+        up = sp['link']['kind'] in ('gear', 'worm')
+        down = i + 1 < mdl.n and specs[i + 1]['link']['kind'] in ('gear', 'worm')
+        if not (up or down):
+            continue
+        role = 'master' if down else 'slave'
+        mate = specs[i + 1] if down else specs[i - 1]
+        exp = expected_flags(sp, mate, True)
+        rec = tr.vars[i]
+        for key, var in (('tf', 'tangential force'), ('bs', 'bending stress'), ('cs', 'contact stress')):
+            if exp.get(key, False) != (var in rec and rec[var] is not None and len(rec[var]) == tr.n):
+                res.bad(f'C09/in-simulation/recorded-variables/{sp["type"]}',
+                        f'element {i} ({sp["type"]}, {role}) records {sorted(rec)}, expected flags {exp}')
+                return res
+        if not exp['tf']:
+            continue
+        ref = tr.get(i, 'load torque') if role == 'master' else tr.get(i, 'driving torque')
+        F = tr.get(i, 'tangential force')
+        if sp['type'] == 'worm':
+            d = _si_len(sp['ref_diameter'])
+            Fe = np.abs(ref) / (d / 2) * math.tan(U.si('Angle', *sp['helix']))
+        else:
+            m = _si_len(sp['module'])
+            d = sp['n_teeth'] * m
+            Fe = np.abs(ref) / (d / 2)
+        n_checked += tr.n
+        bad = np.nonzero(~(np.abs(F - Fe) <= TOL * np.maximum(np.abs(F), np.abs(Fe)) + 1e-300))[0]
+        if len(bad):
+            k = int(bad[0])
+            res.bad(f'C09/in-simulation/force/{sp["type"]}', f'instant {k}: element {i} ({role}) force {F[k]!r}, '
+                    f'|reference torque| {abs(ref[k])!r} / radius gives {Fe[k]!r}')
+            continue
+        if not exp.get('bs'):
+            continue
+        bw = _si_len(sp['face_width'])
+        if sp['type'] == 'spur':
+            Se = Fe / (m * bw * G.lewis(sp['n_teeth']))
+        elif sp['type'] == 'helical':
+            Se = Fe / (m * bw * G.lewis_helical(sp['n_teeth'], U.si('Angle', *sp['helix'])))
+        else:
+            _, (_, Y) = G.worm_pressure_row(U.si('Angle', *sp['pressure']))
+            dw = _si_len(mate['ref_diameter'])
+            Se = Fe / (math.pi * dw * math.sin(U.si('Angle', *mate['helix'])) / sp['n_teeth'] * min(bw, 0.67 * dw) * Y)
+        Sg = tr.get(i, 'bending stress')
+        bad = np.nonzero(~(np.abs(Sg - Se) <= TOL * np.maximum(np.abs(Sg), np.abs(Se)) + 1e-300))[0]
+        if len(bad):
+            k = int(bad[0])
+            res.bad(f'C09/in-simulation/bending/{sp["type"]}', f'instant {k}: element {i} bending {Sg[k]!r}, expected {Se[k]!r}')
+            continue
+        if not exp.get('cs'):
+            continue
+        d2 = mate['n_teeth'] * _si_len(mate['module'])
+        e1, e2 = U.si('Stress', *sp['E']), U.si('Stress', *mate['E'])
+        if sp['type'] == 'spur':
+            Ce = np.array([G.contact_spur(f, bw, d, d2, e1, e2) for f in Fe])
+        else:
+            Ce = np.array([G.contact_helical(f, bw, U.si('Angle', *sp['helix']), d, d2, e1, e2) for f in Fe])
+        Cg = tr.get(i, 'contact stress')
+        bad = np.nonzero(~(np.abs(Cg - Ce) <= TOL * np.maximum(np.abs(Cg), np.abs(Ce)) + 1e-300))[0]
+        if len(bad):
+            k = int(bad[0])
+            res.bad(f'C09/in-simulation/contact/{sp["type"]}', f'instant {k}: element {i} contact {Cg[k]!r}, expected {Ce[k]!r}')
+    res.count = max(1, n_checked)
+    res.nontrivial = n_checked > 0
+    res.classes += ('has-force-series' if n_checked else 'no-force-series',)
+    return res
+
+
 def parts(tier):
+    from vp import gen as GEN
+    sim = Part('in-simulation', check_in_simulation, strategy=GEN.s_case(max_len=6, max_steps=20, histories=('run',)),
+               examples=60 if tier == 'quick' else 800, shards=4 if tier == 'quick' else 8)
+    return _parts(tier) + [sim]
+
+
+def _parts(tier):
     lew = Part('lewis-teeth', check_lewis, enumerate=enum_lewis, exhaustive=True, chunk=700)
     sub = Part('subsets', check_pair, enumerate=enum_subsets, exhaustive=True, chunk=100)
     if tier == 'quick':
